@@ -205,7 +205,8 @@ MANIFEST = dict(
          "the value on every archive showing that layout (C18_round_trip_archive, C18_reader_inverts_layout), 4 flag bytes are used iff "
          "no extended field is present (C18_short_form), a record occupies |flags| + 4 + 4 * #present fields = the announced size and "
          "#present = popcount(flags) - marker (C18_record_size), the data-size field of the file is 4 + the announced sizes + 4 "
-         "(C18_data_size), the read loop stops at the trailing zero word (C18_read_loop_stops). "
+         "(C18_data_size), whatever the reader returns from any archive / byte string is in normal form and a fixed point of "
+         "write -> read (C18_reader_output_round_trips), the read loop stops at the trailing zero word (C18_read_loop_stops). "
          "Byte level (C18_round_trip_final, no premise): for NUL-free strings and image < 2^32, in both arithmetic modes serialize "
          "succeeds, parse(bytes) returns the same value and re-serializing whatever is re-read gives the same bytes; proved from the "
          "bin-archive round trip C01 via Proofs/RecsBinBridge.v. Model tied to /repo on every run: value -> serialize -> parse -> "
